@@ -292,6 +292,26 @@ class WorkerPool:
         return subprocess.Popen([self.binary] + self.args, cwd=wd, stdin=subprocess.PIPE, stdout=subprocess.PIPE,
                                 stderr=errf, env=self.env, text=True, bufsize=1 << 20)
 
+    def _died_in_harness(self, i):
+        """True if the last crash recorded in the worker's stderr has its innermost non-runtime frame in the
+        harness (package main) rather than in the code under test."""
+        f = os.path.join(self.ctx.scratch, "w%d-%s" % (i, os.path.basename(self.binary)), "stderr.log")
+        try:
+            txt = open(f, errors="replace").read()
+        except Exception:
+            return False
+        k = max(txt.rfind("\npanic:"), txt.rfind("fatal error:"))
+        if k < 0:
+            return False
+        tail = txt[k:]
+        g = tail.find("goroutine ")
+        frames = [l.strip() for l in tail[g:].splitlines()[1:] if l and not l.startswith("\t") and "(" in l]
+        for fr in frames:
+            if fr.startswith(("runtime.", "panic(", "strings.", "fmt.", "encoding/", "reflect.", "sync.", "os.", "syscall.", "sort.", "bytes.", "bufio.", "io.", "math")):
+                continue
+            return fr.startswith("main.")
+        return False
+
     def _stderr_tail(self, i, n=6):
         f = os.path.join(self.ctx.scratch, "w%d-%s" % (i, os.path.basename(self.binary)), "stderr.log")
         try:
@@ -350,6 +370,8 @@ class WorkerPool:
                         except Exception:
                             pass
                         culprit = todo[done]
+                        if self._died_in_harness(i):
+                            raise Undecided("the harness itself crashed (not the code under test): %s" % self._stderr_tail(i))
                         with lock:
                             on_result(culprit, {"ok": False, "fatal": True, "step": -1,
                                                 "viol": ["the process died with a fatal runtime error while executing this scenario: " + self._stderr_tail(i)]})
